@@ -1,2 +1,3 @@
 import PbProps.C01
+import PbProps.C02
 import PbProps.C18
